@@ -82,7 +82,7 @@ func fieldType(kind string) reflect.Type {
 		return tSecret
 	case "bin":
 		return tBin
-	case "binptr":
+	case "binptr", "untagged-binptr":
 		return tBinPtr
 	case "json-struct":
 		return tJSON
@@ -167,6 +167,10 @@ func runC20(t *testing.T, c StructCase) (v *h.Violation, info h.Info) {
 			if !bytes.HasPrefix(val, []byte("BAD")) {
 				val = []byte(fmt.Sprint(len(f.Val)))
 			}
+		}
+		if strings.HasPrefix(f.Kind, "json-") && bytes.HasPrefix(f.Val, []byte("TRAIL")) {
+			// a complete JSON value followed by something else: not a JSON document
+			val = append(val, [][]byte{[]byte(` {"x":2}`), []byte(" # note"), []byte("\n7"), []byte("]")}[len(f.Val)%4]...)
 		}
 		if _, dup := served[full(f.Tag)]; !dup {
 			served[full(f.Tag)] = val
@@ -410,6 +414,10 @@ func runC20(t *testing.T, c StructCase) (v *h.Violation, info h.Info) {
 			if string(fv.Bytes()) != "sentinel" {
 				return h.V("untagged-fields-untouched", "untagged []byte field %d now holds %q", i, fv.Bytes()), info
 			}
+		case "untagged-binptr":
+			if !fv.IsNil() {
+				return h.V("untagged-fields-untouched", "untagged nil pointer field %d (a BinaryUnmarshaler type) is no longer nil", i), info
+			}
 		case "untagged-str":
 			if fv.String() != "sentinel" {
 				return h.V("untagged-fields-untouched", "untagged string field %d now holds %q", i, fv.String()), info
@@ -430,7 +438,7 @@ func runC20(t *testing.T, c StructCase) (v *h.Violation, info h.Info) {
 			nk++
 		}
 	}
-	untagged := kinds["untagged-int"] || kinds["untagged-bytes"] || kinds["untagged-str"]
+	untagged := kinds["untagged-int"] || kinds["untagged-bytes"] || kinds["untagged-str"] || kinds["untagged-binptr"]
 	info.NonTrivial = tagged >= 3 && nk >= 3 && untagged
 	if len(failing) > 0 && c.ViaApply {
 		info.Class("others-filled-despite-failure")
@@ -448,7 +456,7 @@ func genStructCase(rt *rapid.T) StructCase {
 		ViaApply: rapid.Bool().Draw(rt, "apply"),
 		Scribble: rapid.Bool().Draw(rt, "scribble"),
 	}
-	good := []string{"bytes", "bytes", "string", "secret", "bin", "binptr", "json-struct", "json-map", "json-int", "untagged-int", "untagged-bytes", "untagged-str", "embedded"}
+	good := []string{"bytes", "bytes", "string", "secret", "bin", "binptr", "json-struct", "json-map", "json-int", "untagged-int", "untagged-bytes", "untagged-str", "untagged-binptr", "embedded"}
 	bad := []string{"bad-int", "bad-float", "bad-chan", "empty-tag"}
 	withBad := rapid.IntRange(0, 9).Draw(rt, "withbad") == 0
 	allUntagged := rapid.IntRange(0, 14).Draw(rt, "alluntagged") == 0
@@ -460,7 +468,7 @@ func genStructCase(rt *rapid.T) StructCase {
 			pool = bad
 		}
 		if allUntagged {
-			pool = []string{"untagged-int", "untagged-bytes", "untagged-str"}
+			pool = []string{"untagged-int", "untagged-bytes", "untagged-str", "untagged-binptr"}
 		}
 		f := FieldSpec{Kind: rapid.SampledFrom(pool).Draw(rt, "kind")}
 		f.Tag = rapid.SampledFrom(c20Tags).Draw(rt, "tag")
@@ -482,6 +490,13 @@ func genStructCase(rt *rapid.T) StructCase {
 			f.Val = append([]byte("REJECT"), rapid.SliceOfN(rapid.Byte(), 0, 4).Draw(rt, "rej")...)
 		case 2:
 			f.Val = append([]byte("BAD{"), rapid.SliceOfN(rapid.Byte(), 0, 4).Draw(rt, "badjson")...)
+		case 3:
+			if strings.HasPrefix(f.Kind, "json-") {
+				f.Val = append([]byte("TRAIL"), rapid.SliceOfN(rapid.Byte(), 0, 4).Draw(rt, "trail")...)
+			} else {
+				// text ending in line terminators or other white space: delivered unaltered
+				f.Val = append(rapid.SliceOfN(rapid.Byte(), 0, 6).Draw(rt, "val"), rapid.SampledFrom([]string{"\n", "\r\n", "\n\n", " ", "\t\n", "\r"}).Draw(rt, "tail")...)
+			}
 		default:
 			f.Val = rapid.SliceOfN(rapid.Byte(), 1, 24).Draw(rt, "val")
 		}
@@ -492,7 +507,7 @@ func genStructCase(rt *rapid.T) StructCase {
 
 var c20 = &h.Campaign[StructCase]{
 	Prop: "C20", Sub: "structs",
-	Rule: "rapid: struct types built at run time with reflect.StructOf: 1-8 exported fields in random order from {[]byte, string, setec.Secret, value and pointer BinaryUnmarshaler, ',json' struct/map/int, untagged int/[]byte/string with sentinels, an embedded struct with two tagged fields and an untagged one, unsupported tagged int/float/chan, an empty tag name}, clean prefixes, random/empty/rejected/invalid-JSON secret bytes; populated through NewStore(Structs) or ParseFields+Apply; also non-pointer / non-struct arguments and structs without tags; populated []byte fields are overwritten and the store re-read; non-trivial = >= 3 tagged fields of >= 3 kinds plus an untagged one, or a rejected shape, or a failing field with the others filled; distinct by scenario",
+	Rule: "rapid: struct types built at run time with reflect.StructOf: 1-8 exported fields in random order from {[]byte, string, setec.Secret, value and pointer BinaryUnmarshaler, ',json' struct/map/int, untagged int/[]byte/string with sentinels, an embedded struct with two tagged fields and an untagged one, unsupported tagged int/float/chan, an empty tag name}, clean prefixes, random/empty/rejected/invalid-JSON secret bytes, JSON values followed by trailing data, text ending in line terminators, untagged nil pointers of an unmarshaler type; populated through NewStore(Structs) or ParseFields+Apply; also non-pointer / non-struct arguments and structs without tags; populated []byte fields are overwritten and the store re-read; non-trivial = >= 3 tagged fields of >= 3 kinds plus an untagged one, or a rejected shape, or a failing field with the others filled; distinct by scenario",
 	Quick: 5000, Thorough: 5000000,
 	Gen:   genStructCase,
 	Run:   runC20,
